@@ -68,9 +68,22 @@ def dss(v):
 
 
 def run_model(requests, timeout=600):
-    """Run a batch of requests (python values, see sx) through the extracted model. Returns parsed replies."""
+    """Run a batch of requests (python values, see sx) through the extracted model. Returns parsed replies.
+    Large batches are sharded over several model processes."""
     if not requests:
         return []
+    if len(requests) >= 64:
+        from concurrent.futures import ThreadPoolExecutor
+        n = min(12, len(requests) // 16)
+        size = (len(requests) + n - 1) // n
+        shards = [requests[i:i + size] for i in range(0, len(requests), size)]
+        with ThreadPoolExecutor(len(shards)) as ex:
+            parts = list(ex.map(lambda s: _run_model_one(s, timeout), shards))
+        return [r for part in parts for r in part]
+    return _run_model_one(requests, timeout)
+
+
+def _run_model_one(requests, timeout=600):
     data = '\n'.join(sx(r) for r in requests) + '\n'
     proc = subprocess.run(['bash', '-c', f'ulimit -s unlimited 2>/dev/null; exec {MODEL_BIN}'],
                           input=data.encode(), stdout=subprocess.PIPE, stderr=subprocess.PIPE, timeout=timeout)
